@@ -64,6 +64,20 @@ static void crystal_text(char *out, size_t n, const char *name) {
     for (int i = 0; i < c->n_atom; i++) o += snprintf(out + o, n - o, "%d %.17g %.17g %.17g %.17g\n", c->atom[i].Zatom, c->atom[i].fraction, c->atom[i].x, c->atom[i].y, c->atom[i].z);
     mkfree(c);
 }
+/* the same crystal written in legal but unusual ways: style 1 = '#N 6' although the atom lines have five columns (the header is informative),
+   style 2 = tabs between the fields, trailing blanks, numbers without a leading zero where they are below 1 */
+static void crystal_text_style(char *out, size_t n, const char *name, int style) {
+    Crystal_Struct *c = mk(name); size_t o = 0;
+    const char *sep = style == 2 ? "\t" : " ";
+    o += snprintf(out + o, n - o, "#S 1 %s\n#UCELL %.17g%s%.17g%s%.17g%s%.17g%s%.17g%s%.17g%s\n#N %d\n#L AtomicNumber Fraction X Y Z\n", name, c->a, sep, c->b, sep, c->c, sep, c->alpha, sep, c->beta, sep, c->gamma,
+                  style == 2 ? "   " : "", style == 1 ? 6 : 5);
+    for (int i = 0; i < c->n_atom; i++) {
+        char num[4][40]; double v[4] = { c->atom[i].fraction, c->atom[i].x, c->atom[i].y, c->atom[i].z };
+        for (int k = 0; k < 4; k++) { snprintf(num[k], sizeof num[k], "%.17g", v[k]); if (style == 2 && !strncmp(num[k], "0.", 2)) memmove(num[k], num[k] + 1, strlen(num[k])); }
+        o += snprintf(out + o, n - o, "%d%s%s%s%s%s%s%s%s%s\n", c->atom[i].Zatom, sep, num[0], sep, num[1], sep, num[2], sep, num[3], style == 2 ? " \t " : "");
+    }
+    mkfree(c);
+}
 static void make_files(void) {
     char a[2000], b[2000], t[6000];
     crystal_text(a, sizeof a, "E"); snprintf(t, sizeof t, "%s#EOF\n", a); wfile(0, t);
@@ -79,6 +93,8 @@ static void make_files(void) {
     { char c[2000]; crystal_text(a, sizeof a, "Ab"); crystal_text(b, sizeof b, "Ac"); crystal_text(c, sizeof c, "Ab");
       snprintf(t, sizeof t, "%s%s%s#EOF\n", a, b, c); wfile(12, t);          /* the same name twice in one file, another crystal in between */
       snprintf(t, sizeof t, "%s%s#EOF\n", a, c); wfile(13, t); }                /* ... and adjacent */
+    crystal_text_style(a, sizeof a, "Dq", 1); crystal_text(b, sizeof b, "Dr"); snprintf(t, sizeof t, "%s%s#EOF\n", a, b); wfile(14, t);    /* '#N 6' with five columns, then an ordinary crystal */
+    crystal_text_style(a, sizeof a, "Dt", 2); snprintf(t, sizeof t, "%s#EOF\n", a); wfile(15, t);                                          /* tabs, trailing blanks, '.5' */
 }
 
 static char **orig; static int norig;
